@@ -64,6 +64,21 @@ def run(ctx: Ctx):
     r18_7(ctx, E)
 
 
+def dict_clone_sites(fn: ast.AST) -> List[ast.AST]:
+    """statements / calls that copy a whole instance dictionary of `self` into another object"""
+    import re as _re
+    out: List[ast.AST] = []
+    for c in calls_in(fn):
+        t = norm(c).replace(" ", "")
+        if _re.search(r"\.__dict__\.update\(self\.__dict__\)", t) or t in ("copy.copy(self)",):
+            out.append(c)
+    for st in walk_no_nested(fn):
+        if isinstance(st, ast.Assign) and isinstance(st.targets[0], ast.Attribute) and st.targets[0].attr == "__dict__" \
+                and "self.__dict__" in norm(st.value):
+            out.append(st)
+    return out
+
+
 def r18_7(ctx: Ctx, E: Effects, rule="R18.7"):
     """A copy built by cloning the instance dictionary wholesale (`new.__dict__.update(self.__dict__)`, copy.copy(self))
     shares every attribute it does not reassign.  That is harmless for attributes nothing ever changes after
@@ -75,15 +90,7 @@ def r18_7(ctx: Ctx, E: Effects, rule="R18.7"):
         f = ctx.repo.func(api, required=False)
         if f is None or f.cls is None:
             continue
-        clones = []
-        for c in calls_in(f.node):
-            t = norm(c).replace(" ", "")
-            if _re.search(r"\.__dict__\.update\(self\.__dict__\)", t) or t in ("copy.copy(self)", "copy(self)") and "copy" in f.module.imports:
-                clones.append(c)
-        for st in walk_no_nested(f.node):
-            if isinstance(st, ast.Assign) and isinstance(st.targets[0], ast.Attribute) and st.targets[0].attr == "__dict__" \
-                    and "self.__dict__" in norm(st.value):
-                clones.append(st)
+        clones = dict_clone_sites(f.node)
         if not clones:
             continue
         n += 1
@@ -119,6 +126,7 @@ def r18_7(ctx: Ctx, E: Effects, rule="R18.7"):
                + ("" if not shared else " -- `%s` is shared by original and copy and is changed by %s" % (shared[0], changed[shared[0]])),
                node=clones[0], shared=shared)
     ctx.extra["copy_apis_cloning_the_instance_dict"] = n
+    check_fixture(ctx, rule, "dictclone.py", lambda repo: sum(len(dict_clone_sites(f_.node)) for f_ in repo.funcs.values()), expect_exact=2)
 
 
 def r18_6(ctx: Ctx, rule="R18.6"):
